@@ -46,12 +46,18 @@ def gen_overloads(rng):
     for c in rng.sample(cls, 2):
         t += "  W(%s *o);\n" % c
     t += "};\n"
+    # properties whose setters return something (fluent interfaces): rarely used paths of the Python back-ends
+    t += ("class Gauge {\n__published:\n  Gauge();\n  float get_level() const;\n  Gauge &set_level(float v);\n  __make_property(level, get_level, set_level);\n"
+          "  int get_mode() const;\n  Gauge *set_mode(int m);\n  __make_property(mode, get_mode, set_mode);\n"
+          "  %s get_ratio() const;\n  %s set_ratio(%s r);\n  __make_property(ratio, get_ratio, set_ratio);\n};\n"
+          % (rng.choice(["double", "float"]), rng.choice(["bool", "int", "double", "const Gauge &", "A *"]), rng.choice(["double", "float"])))
     return t
 
 
 def conditions(rng, shim_time, shim_comma):
     pad = "x" * rng.choice([3000, 9000])
     return [("repeat", {}, []),
+            ("stale-longer-output-files", {}, []),
             ("mmap-threshold-0", {"MALLOC_MMAP_THRESHOLD_": "0"}, []),
             ("perturb+arena", {"MALLOC_PERTURB_": "165", "MALLOC_ARENA_MAX": "1", "MALLOC_TOP_PAD_": "1048576"}, []),
             ("no-aslr", {}, ["setarch", "x86_64", "-R"]),
@@ -95,7 +101,9 @@ def run(ck):
             for be in (BACKENDS if not quick else rng.sample(BACKENDS, 2) + [["-python-native"]]):
                 def once(tag, env, prefix, epoch="5"):
                     for f in ("o.cxx", "o.in", "o.txt", "mod.cxx"):
-                        if (d / f).exists():
+                        if tag == "stale-longer-output-files":
+                            (d / f).write_bytes(b"// left over from an earlier, longer run\n" * 20000)      # what the output paths held before is no input
+                        elif (d / f).exists():
                             (d / f).unlink()
                     e = dict(env)
                     if epoch is not None:
